@@ -117,7 +117,7 @@ mod imp {
                 finalize: $finalize,
                 finalize_seek: $finalize_seek,
                 reset: $reset,
-                features: unsafe { core::ptr::addr_of_mut!($features) },
+                features: core::ptr::addr_of_mut!($features),
                 degree: $degree,
             }
         };
